@@ -45,4 +45,22 @@ META = {
         "note": "core-only-ness of inputs is guaranteed by generator restriction (the property's own exclusion list), not decided by the parser",
         "technique": "runtime monitoring: differential oracle across all extension subsets",
     },
+    "C09": {
+        "text": "Reference-table monitor, exhaustive over the finite unit dimension (all ordered pairs by every key, all same-quantity triples) and sampled over values; to-system, fit and whole-recipe conversion checked for amount preservation, designated unit lists and error behaviour.",
+        "design_ref": "DESIGN.md §6 C09",
+        "note": "trusts the independent table of standard unit definitions in harness/src/units.rs",
+        "technique": "runtime monitoring: reference-table oracle over all unit pairs/triples",
+    },
+    "C11": {
+        "text": "Exhaustive short inputs over the format's alphabet plus random files, judged by invariants, a write/parse round trip, lookups and an independent reference parser; the unsafe span arithmetic runs under Miri on a stratified sample.",
+        "design_ref": "DESIGN.md §6 C11",
+        "note": "Miri covers only the inputs it is given (interpreter, ~100 inputs per run)",
+        "technique": "runtime monitoring: invariants + reference parser + Miri (undefined-behaviour interpreter)",
+    },
+    "C12": {
+        "text": "Direct oracle on Number::new_approx over a dense value set times all parameter combinations (all max_den 0..=64 in thorough), plus the public callers with the configured per-unit limits.",
+        "design_ref": "DESIGN.md §6 C12",
+        "note": "supported denominators taken from the rustdoc list {2,3,4,5,8,10,16,32,64}",
+        "technique": "runtime monitoring: direct arithmetic oracle on returned values",
+    },
 }
